@@ -2,7 +2,7 @@
 from ..runner import Ob
 
 HDRF = r'''
-from vf.hlib import NS
+from vf.hlib import NS, concrete_int
 from rtflite.services.figure_service import RTFFigureService as FS
 from rtflite.encoding.unified_encoder import UnifiedRTFEncoder
 import rtflite.figure as figmod
@@ -158,13 +158,47 @@ def build(tier, seed):
                   funcs=["rtflite.services.figure_service:RTFFigureService._encode_single_figure"],
                   stubs=["int/round in figure_service -> shims that keep proxy numbers"],
                   bounds="fig_width, fig_height in [0.1, 40] in as IEEE-754 doubles", what="\\picwgoal/\\pichgoal are within one twip of inches*1440"))
+    # O6: the bytes embedded are the bytes the file has WHEN it is read (nothing remembered per path)
+    obs.append(Ob(
+        oid="O6.read_history", sig="v1: int, v2: int, aslist: bool", pre=["0 <= v1 <= 3 and 0 <= v2 <= 3"], timeout=T,
+        header=HDRF + r"""
+import io, os
+HERE = os.path.dirname(os.path.abspath(__file__))
+PRESENT = os.path.join(HERE, "vf_c16_present.png")
+if not os.path.exists(PRESENT):
+    with open(PRESENT, "wb") as _f:
+        _f.write(PNG_SIG)
+""",
+        body=r"""
+    v1, v2 = concrete_int(v1, 0, 3), concrete_int(v2, 0, 3)
+    state = [PNG_SIG + bytes([v1])]
+    figmod.open = lambda path, mode="rb", *a, **k: io.BytesIO(state[0])        # the file's content is `state[0]`
+    try:
+        d1, f1 = figmod.rtf_read_figure(PRESENT)
+        state[0] = PNG_SIG + bytes([v2]) + b"tail"                              # the file is rewritten
+        d2, f2 = figmod.rtf_read_figure([PRESENT] if aslist else PRESENT)
+    finally:
+        del figmod.open
+    return list(d1) == [PNG_SIG + bytes([v1])] and list(d2) == [PNG_SIG + bytes([v2]) + b"tail"] and list(f1) == ["png"] == list(f2)
+""",
+        funcs=["rtflite.figure:rtf_read_figure", "rtflite.figure:_read_image_data"],
+        stubs=["open() inside rtflite.figure -> in-memory file whose content the harness changes between the two reads"],
+        bounds="one path read twice in one process, the file content (one of 4 contents, then one of 4 longer contents; symbolic choice) "
+               " changed in between",
+        what="each read returns the content the file has at that moment"))
+    # O7: placement of figures and the components around them (shared with C06-O3)
+    from .C06 import build as c06_build
+    for ob in c06_build(tier, seed)[0]:
+        if ob.oid.startswith("O3.figure_only"):
+            ob.oid = "O7." + ob.oid[3:]
+            obs.append(ob)
     meta = {
         "explanation": "The byte-level kernels of the figure path run symbolically on the real code: hex payload of arbitrary byte "
                        "strings and at the 80-character line boundary, PNG and JPEG dimension parsing with symbolic headers and "
                        "symbolic preceding marker segments, format detection, positional size lookup, the per-figure loop of the "
                        "figure-only encoder, the picture group, and (engine B, bit-exact doubles) the goal sizes.",
-        "outside": ["reading the file (open)", "MIME fallback for files without a known suffix", "payloads longer than the stated sizes "
-                    "(bytes.hex() is linear; the boundary obligations cover the wrapping arithmetic)", "placement of captions (C06-O3)"],
+        "outside": ["the operating system's open/read (stood in by an in-memory file in O6)", "MIME fallback for files without a known suffix", "payloads longer than the stated sizes "
+                    "(bytes.hex() is linear; the boundary obligations cover the wrapping arithmetic)", "placement inside table documents (C06)"],
         "assumptions": [],
     }
     return obs, meta
